@@ -20,6 +20,7 @@ def run(ck, tier):
     _run(ck, tier)
     _scratch(ck, facts.load())
     _gitcut(ck, facts.load())
+    _resume(ck, facts.load())
 
 
 def _run(ck, tier):
@@ -938,3 +939,128 @@ def _gitcut(ck, p):
             ck.proved(rule, k, f.loc(t["ln"]), "source[0..end] with end from a forward search (%s) for '#' (whole length if there is none)" % ", ".join(fwd))
         else:
             ck.undecided(rule, k, f.loc(t["ln"]), "the cut is not located by a recognised forward search for '#' (forward searches seen: %s; comparison with '#': %s)" % (fwd, hash_cmp))
+
+
+# ---------------------------------------------------------------------------------------------------
+def _linform(f, pv, op, depth=0):
+    """symbolic linear form of a usize operand: ({atom: coeff}, const) or None.  Atoms are locals with several
+    definitions (loop variables) or values that are not sums (call results, fields)."""
+    from ..util import const_int
+    if isinstance(op, dict) and "k" in op:
+        c = const_int(op)
+        return ({}, c) if c is not None else None
+    pl = place_of(op)
+    if not pl or depth > 10:
+        return None
+    if len(pl) == 2 and isinstance(pl[1], list) and pl[1][0] == "f" and pl[1][1] == 0:
+        ds = [x for (b, si, kind, x) in pv.defs.get(pl[0], []) if kind == "assign"]
+        if len(ds) == 1 and ds[0]["rv"]["k"] == "bin" and ds[0]["rv"]["op"] in ("AddWithOverflow", "SubWithOverflow"):
+            a, b = _linform(f, pv, ds[0]["rv"]["a"], depth + 1), _linform(f, pv, ds[0]["rv"]["b"], depth + 1)
+            if a is None or b is None:
+                return None
+            sg = 1 if ds[0]["rv"]["op"].startswith("Add") else -1
+            atoms = dict(a[0])
+            for k, v in b[0].items():
+                atoms[k] = atoms.get(k, 0) + sg * v
+            return ({k: v for k, v in atoms.items() if v}, a[1] + sg * b[1])
+    if len(pl) != 1:
+        return ({("place", str(pl)): 1}, 0)
+    ds = [x for (b, si, kind, x) in pv.defs.get(pl[0], [])]
+    if len(ds) == 1 and "rv" in ds[0]:
+        rv = ds[0]["rv"]
+        if rv["k"] == "use":
+            return _linform(f, pv, rv["op"], depth + 1)
+        if rv["k"] == "bin" and rv["op"] in ("Add", "Sub"):
+            a, b = _linform(f, pv, rv["a"], depth + 1), _linform(f, pv, rv["b"], depth + 1)
+            if a is None or b is None:
+                return None
+            sg = 1 if rv["op"] == "Add" else -1
+            atoms = dict(a[0])
+            for k, v in b[0].items():
+                atoms[k] = atoms.get(k, 0) + sg * v
+            return ({k: v for k, v in atoms.items() if v}, a[1] + sg * b[1])
+    if len(ds) == 1 and ds[0].get("k") == "call" and method(ds[0]) in ("unwrap_or", "unwrap_or_default") and ds[0]["args"]:
+        # Option<usize>::unwrap_or(0): the payload, as an atom of its own
+        return ({("local", pl[0]): 1}, 0)
+    return ({("local", pl[0]): 1}, 0)
+
+
+def _resume(ck, p):
+    """The JSDoc / Javadoc scanner marks `{@tag ...}` Unlintable token by token and goes on behind it.  It has to
+    go on exactly behind it: resuming one token further skips the token that follows the closing brace, and when
+    that token is the opening brace of the next tag, the second tag is never recognised."""
+    rule = "R-C04-resume"
+    ck.rule(rule, "the inline-tag scanner of the JSDoc / Javadoc parsers resumes exactly behind what it marked: after tokens[a..b] were made Unlintable the cursor is set to b (not beyond it - the token behind a closing brace can be the opening brace of the next tag, whose contents would then stay lintable)")
+    byk = fns_by_key(p)
+    fs = byk.get("harper_comments::comment_parsers::jsdoc::mark_inline_tags")
+    if not ck.anchor(rule, "jsdoc::mark_inline_tags", fs):
+        return
+    f = fs[0]
+    ck.saw(f)
+    cfg = Cfg(f)
+    pv = Prov(f)
+    # the marked range: Range{a, b} handed to index_mut on the token slice
+    ranges = []
+    for bi, t in f.calls():
+        if method(t) == "index_mut" and len(t["args"]) == 2:
+            for o in pv.trace_operand(t["args"][1]):
+                if o[0] == "agg" and "Range" in str(o[2]) and len(o[3]) == 2:
+                    ranges.append((bi, t))
+    if len(ranges) != 1:
+        ck.undecided(rule, "mark_inline_tags:resume", f.span, "expected one `tokens[a..b]` that is marked, found %d" % len(ranges))
+        return
+    rb, rt = ranges[0]
+    agg = None
+    for b in f.blocks:
+        for sx in b["s"]:
+            if sx["k"] == "assign" and sx["rv"]["k"] == "agg" and str(sx["rv"].get("name", "")).endswith("range::Range") and place_of(rt["args"][1]) == sx["lhs"]:
+                agg = sx
+    if agg is None:
+        ck.undecided(rule, "mark_inline_tags:resume", f.span, "the range of the marked tokens is not built in place")
+        return
+    A, B = _linform(f, pv, agg["rv"]["ops"][0]), _linform(f, pv, agg["rv"]["ops"][1])
+    # the cursor: the multi-definition usize local the range start is an atom of
+    curs = [k[1] for k in (A[0] if A else {}) if k[0] == "local" and len(pv.defs.get(k[1], [])) > 1]
+    names = f.debug_names()
+    # assignments of a multi-definition usize local that are dominated by the marking
+    found = []
+    for bi, b in enumerate(f.blocks):
+        if b["cleanup"] or not cfg.dominates(rb, bi) or bi == rb:
+            continue
+        for sx in b["s"]:
+            if sx["k"] == "assign" and len(sx["lhs"]) == 1 and len(pv.defs.get(sx["lhs"][0], [])) > 1 and f.local_tystr(sx["lhs"][0]) == "usize" and sx["lhs"][0] in names:
+                if sx["rv"]["k"] == "use":
+                    E = _linform_stmt(f, pv, sx)
+                    found.append((sx, E))
+    if not found or A is None or B is None:
+        ck.undecided(rule, "mark_inline_tags:resume", f.loc(rt["ln"]), "no assignment of the cursor behind the marking was recognised")
+        return
+    verdicts = []
+    for sx, E in found:
+        if E is None:
+            verdicts.append(("undecided", sx["ln"], None))
+            continue
+        diff_atoms = dict(E[0])
+        for k, v in B[0].items():
+            diff_atoms[k] = diff_atoms.get(k, 0) - v
+        diff_atoms = {k: v for k, v in diff_atoms.items() if v}
+        dc = E[1] - B[1]
+        if not diff_atoms and dc == 0:
+            verdicts.append(("ok", sx["ln"], 0))
+        elif not diff_atoms:
+            verdicts.append(("off", sx["ln"], dc))
+        else:
+            verdicts.append(("undecided", sx["ln"], None))
+    off = [v for v in verdicts if v[0] == "off"]
+    if off:
+        ck.refuted(rule, "mark_inline_tags:resume", f.loc(off[0][1]), "after marking tokens[a..b] the scan resumes at b%+d: the token right behind the tag is never looked at - when it is the opening brace of another tag (`{@code x()}{@code y()}`), that tag is not recognised and its contents are offered as prose" % off[0][2])
+    elif any(v[0] == "undecided" for v in verdicts):
+        ck.undecided(rule, "mark_inline_tags:resume", f.loc(rt["ln"]), "the cursor assignment behind the marking is not comparable with the end of the marked range")
+    else:
+        ck.proved(rule, "mark_inline_tags:resume", f.loc(rt["ln"]), "the cursor is set to the end of the marked range (%d assignment(s))" % len(verdicts))
+
+
+def _linform_stmt(f, pv, sx):
+    """linear form of the right-hand side of `x = <use>` where x has several definitions (so the normaliser must not
+    look x itself up as single-definition)"""
+    return _linform(f, pv, sx["rv"]["op"])
